@@ -16,7 +16,8 @@ pub enum LinOp {
     RemoveAll { clock: (u64, u64) },
     /// get / contains_key / iterator yield: observed value id (None = nothing).
     /// `any_value`: contains_key saw "something" without knowing which value.
-    Read { got: Option<u32>, any_value: bool },
+    /// `clock_hi`: the latest clock reading the lookup may have used.
+    Read { got: Option<u32>, any_value: bool, clock_hi: u64 },
 }
 
 #[derive(Clone, Debug)]
@@ -36,9 +37,23 @@ struct Reg {
     hi: u64,
 }
 
+/// Expiry configuration for the strict register: a strict read may still observe nothing
+/// when the current value may have expired by the read's latest possible clock reading
+/// (written at reading >= lo, so certainly alive only before lo + d).
+#[derive(Clone, Copy, Debug, Default)]
+pub struct Expiry {
+    pub ttl: Option<u64>,
+    pub tti: Option<u64>,
+}
+
 /// Returns Ok(()) if the history of one key is linearizable; Err(description) otherwise.
-/// `strict`: reads must observe the register exactly (no spurious "nothing").
+/// `strict`: reads must observe the register exactly (no spurious "nothing"), except that
+/// a value that may have expired (see `Expiry`) may be missing.
 pub fn check_key(events: &[LinEvent], strict: bool) -> Result<(), String> {
+    check_key_exp(events, strict, Expiry::default())
+}
+
+pub fn check_key_exp(events: &[LinEvent], strict: bool, exp: Expiry) -> Result<(), String> {
     let n = events.len();
     if n == 0 {
         return Ok(());
@@ -48,7 +63,7 @@ pub fn check_key(events: &[LinEvent], strict: bool) -> Result<(), String> {
     }
     let mut memo: HashSet<(u32, Reg)> = HashSet::new();
     let init = Reg { vid: 0, lo: 0, hi: 0 };
-    if search(events, 0u32, init, strict, &mut memo) {
+    if search(events, 0u32, init, strict, exp, &mut memo) {
         Ok(())
     } else {
         let mut desc = Vec::new();
@@ -61,7 +76,7 @@ pub fn check_key(events: &[LinEvent], strict: bool) -> Result<(), String> {
     }
 }
 
-fn search(ev: &[LinEvent], done: u32, reg: Reg, strict: bool, memo: &mut HashSet<(u32, Reg)>) -> bool {
+fn search(ev: &[LinEvent], done: u32, reg: Reg, strict: bool, exp: Expiry, memo: &mut HashSet<(u32, Reg)>) -> bool {
     let n = ev.len();
     if done.count_ones() as usize == n {
         return true;
@@ -84,44 +99,47 @@ fn search(ev: &[LinEvent], done: u32, reg: Reg, strict: bool, memo: &mut HashSet
         let nd = done | (1 << i);
         match &e.op {
             LinOp::Write { vid, clock } => {
-                if search(ev, nd, Reg { vid: *vid, lo: clock.0, hi: clock.1 }, strict, memo) {
+                if search(ev, nd, Reg { vid: *vid, lo: clock.0, hi: clock.1 }, strict, exp, memo) {
                     return true;
                 }
             }
             LinOp::Remove => {
-                if search(ev, nd, Reg { vid: 0, lo: 0, hi: 0 }, strict, memo) {
+                if search(ev, nd, Reg { vid: 0, lo: 0, hi: 0 }, strict, exp, memo) {
                     return true;
                 }
             }
             LinOp::RemoveAll { clock } => {
                 if reg.vid == 0 {
-                    if search(ev, nd, reg, strict, memo) {
+                    if search(ev, nd, reg, strict, exp, memo) {
                         return true;
                     }
                 } else {
                     // removed iff t_insert < t_call; both are intervals
                     let may_remove = reg.lo < clock.1;
                     let may_keep = reg.hi >= clock.0;
-                    if may_remove && search(ev, nd, Reg { vid: 0, lo: 0, hi: 0 }, strict, memo) {
+                    if may_remove && search(ev, nd, Reg { vid: 0, lo: 0, hi: 0 }, strict, exp, memo) {
                         return true;
                     }
-                    if may_keep && search(ev, nd, reg, strict, memo) {
+                    if may_keep && search(ev, nd, reg, strict, exp, memo) {
                         return true;
                     }
                 }
             }
-            LinOp::Read { got, any_value } => {
+            LinOp::Read { got, any_value, clock_hi } => {
+                let may_have_expired = reg.vid != 0
+                    && (exp.ttl.map(|d| *clock_hi >= reg.lo.saturating_add(d)).unwrap_or(false)
+                        || exp.tti.map(|d| *clock_hi >= reg.lo.saturating_add(d)).unwrap_or(false));
                 let ok = match got {
                     Some(v) => reg.vid == *v,
                     None => {
                         if *any_value {
                             reg.vid != 0
                         } else {
-                            !strict || reg.vid == 0
+                            !strict || reg.vid == 0 || may_have_expired
                         }
                     }
                 };
-                if ok && search(ev, nd, reg, strict, memo) {
+                if ok && search(ev, nd, reg, strict, exp, memo) {
                     return true;
                 }
             }
@@ -141,7 +159,7 @@ mod tests {
         let h = vec![
             ev(LinOp::Write { vid: 1, clock: (0, 0) }, 0, 1),
             ev(LinOp::Write { vid: 2, clock: (0, 0) }, 2, 3),
-            ev(LinOp::Read { got: Some(1), any_value: false }, 4, 5),
+            ev(LinOp::Read { got: Some(1), any_value: false, clock_hi: 0 }, 4, 5),
         ];
         assert!(check_key(&h, false).is_err());
     }
@@ -150,7 +168,7 @@ mod tests {
         let h = vec![
             ev(LinOp::Write { vid: 1, clock: (0, 0) }, 0, 1),
             ev(LinOp::Write { vid: 2, clock: (0, 0) }, 2, 6),
-            ev(LinOp::Read { got: Some(1), any_value: false }, 3, 4),
+            ev(LinOp::Read { got: Some(1), any_value: false, clock_hi: 0 }, 3, 4),
         ];
         assert!(check_key(&h, false).is_ok());
     }
